@@ -175,6 +175,8 @@ def call_builtin(I, name, args, kwargs, env):
     if name == 'range':
         if all(isinstance(a, int) for a in args):
             return range(*args)
+        if len(args) == 2 and all(_intlike(a) for a in args):
+            return SRange(args[0], args[1])
         return I.loops.sym_range(I, args)
     if name == 'enumerate':
         x = args[0]
@@ -256,9 +258,19 @@ def call_builtin(I, name, args, kwargs, env):
         fn, xs = args
         return [I.call(fn, [x], {}) for x in I.iterate(xs)]
     if name == 'iter':
+        if isinstance(args[0], SRange):
+            return SRangeIter(args[0].lo, args[0].hi)
         return IterVal(I.iterate(args[0]))
     if name == 'next':
         it = args[0]
+        if isinstance(it, SRangeIter):
+            if I.branch(simp(zint(it.next) < zint(it.hi))):
+                v = it.next
+                it.next = simp(zint(it.next) + 1)
+                return v
+            if len(args) > 1:
+                return args[1]
+            I.raise_py('StopIteration')
         if isinstance(it, IterVal):
             if it.pos < len(it.items):
                 it.pos += 1
@@ -281,6 +293,18 @@ def call_builtin(I, name, args, kwargs, env):
 class IterVal:
     def __init__(self, items):
         self.items, self.pos = items, 0
+
+
+class SRange:
+    """range(lo, hi) with symbolic bounds (step 1): known through iter / next / len only"""
+    def __init__(self, lo, hi):
+        self.lo, self.hi = lo, hi
+
+
+class SRangeIter:
+    """an iterator object over a symbolic range: its own position, independent of every other iterator"""
+    def __init__(self, lo, hi):
+        self.next, self.hi = lo, hi
 
 
 class BuiltinMethodResultView:
